@@ -234,6 +234,11 @@ def run_hypothesis(ctx: Ctx, strategy, oracle, max_examples: int, label: str = "
     import hypothesis
     from hypothesis import HealthCheck, Phase, given, settings
 
+    fast = os.environ.get("VF_FAST_FAIL") == "1"  # seeded-change campaigns: only "caught or not" matters
+    if fast and ctx.failures:
+        return
+    if fast:
+        rounds, shrink_budget = 1, 10
     if rounds is None:
         rounds = 2 if ctx.tier == "quick" else 3
     if shrink_budget is None:
